@@ -160,8 +160,9 @@ def run(ctx):
     ue = prog.fn('DyndepLoader::UpdateEdge')
     reject_if(ctx, 'C11.X', ld, lambda a: strip(a).get('k') == 'call' and
               basename(strip(a).get('name') or '').startswith('operator==') and
-              any(basename(x.get('name') or '') == 'end' for x in walk(a) if x.get('k') == 'call'),
-              True, 'X9 edge not mentioned in its dyndep file', 'X9:edge-not-mentioned')
+              any(basename(x.get('name') or '') == 'end' for x in walk(a) if x.get('k') == 'call') and
+              any(basename(x.get('name') or '').split('<')[0] == 'find' for x in walk(deep_resolve(ld, a)) if x.get('k') == 'call'),
+              True, 'X9 edge not mentioned in its dyndep file (`find(edge) == end()`)', 'X9:edge-not-mentioned')
     reject_if(ctx, 'C11.X', ld, lambda a: mentions_field(a, 'Dyndeps::used_'), False,
               'X10 dyndep file mentions a statement without a binding for it', 'X10:extra-entry')
     reject_if(ctx, 'C11.X', ld, lambda a: mentions_call(a, 'DyndepLoader::LoadDyndepFile'), False,
@@ -224,6 +225,19 @@ def run(ctx):
     rs = [e for e in ue.calls('BindingEnv::AddBinding') if 'restat' in dstr(e.get('args'))]
     ctx.check('C11.P', len(rs) == 1 and fact_holds(ue.facts_at(rs[0]), lambda a: mentions_field(a, 'Dyndeps::restat_'), True),
               ue.name, 'UpdateEdge:restat', ue.loc, 'restat binding added exactly when the dyndep file says so')
+    # ... in a scope that belongs to this edge alone: an edge without bindings of its own shares the scope of its file
+    # (the dyndep binding may come from the rule), and a binding added there would apply to every such edge
+    for f2, e2 in calls_to(prog, 'BindingEnv::AddBinding'):
+        if not mentions_field(e2.get('recv'), 'Edge::env_'):
+            continue
+        r = f2.find_path(None, lambda x: x is e2, from_succ=f2.entry,
+                         is_blocker=lambda x: x.get('k') == 'asg' and mentions_field(x.get('l'), 'Edge::env_') and
+                         any(y.get('k') == 'new' for y in walk(x.get('r'))),
+                         edge_ok=lambda b, i, s2, f2=f2: not any(pol is True and mentions_field(atom, 'Edge::has_own_env_')
+                                                                   for k, pol, atom in f2.edge_facts(b, i)))
+        ctx.check('C11.P', r is None, f2.name, 'edge-binding:into-shared-scope', f2.where(e2),
+                  'a binding is added to edge->env_ only when that scope is the edge\'s own (has_own_env_) or was just created for it',
+                  witness=None if r is None else {'blocks': r[0]})
     # parser fills exactly these three fields
     for fld, var in (('Dyndeps::implicit_inputs_', 'ins'), ('Dyndeps::implicit_outputs_', 'outs')):
         ws = [(f, e) for f, e, kind, rhs in field_writes(prog, fld) if kind in ('push_back', 'emplace_back')]
@@ -234,7 +248,7 @@ def run(ctx):
             ok = any(mentions_call(o, 'State::GetNode') for o in os_)
             ctx.check('C11.P', ok, f.name, 'parser:%s-source' % fld, f.where(e),
                       '%s receives State::GetNode(path) of each parsed path' % fld)
-    ctx.floor('C11.P', 14)
+    ctx.floor('C11.P', 15)
 
     # ---- W1: pending flag lifecycle ---------------------------------------------------------------
     R('C11.W1', 'W', 'dyndep_pending is set only by the manifest parser and cleared only at the '
